@@ -150,6 +150,7 @@ func Universe() []UVal {
 		specU("[]string", withRep(SArr(SStr("b"), SStr("a"), SStr("B")), "typed")),
 		specU("[strs]", SArr(SStr("b"), SStr("a"), SStr("B"), SStr("a"))),
 		specU("{a:1,b:2}any", withRep(SMap("a", SInt(1), "b", SInt(2)), "anykey")),
+		specU("{a:1,b:2}named", withRep(SMap("a", SInt(1), "b", SInt(2)), "namedkey")),
 		specU("[]int", withRep(SArr(SInt(2), SInt(1), SInt(2)), "typed")),
 		specU("[mixed]", SArr(SInt(1), SStr("a"), SFloat(2.5), SBool(true), SNil(), SStr("1"))),
 		specU("[maps]", SArr(SMap("a", SInt(2)), SMap("b", SInt(1)), SMap("a", SNil()), SMap("a", SInt(1)))),
@@ -182,6 +183,8 @@ func Universe() []UVal {
 		rawU("{k:nil*Drop}", func() any { var p *Drop; return map[string]any{"k": p, "title": p} }),
 		rawU("[]map[any]any", func() any { return []any{map[any]any{"k": "b", 1: 2}, map[any]any{"k": "a"}} }),
 		rawU("map[any]any", func() any { return map[any]any{"x": 1, 2: "two", 2.5: []any{1}} }),
+		rawU("map[NaN]", func() any { return map[float64]any{math.NaN(): "x", 1.5: "y"} }),
+		rawU("map[any]{NaN}", func() any { return map[any]any{math.NaN(): 1, "k": float32(math.NaN())} }),
 		rawU("*time", func() any { t := time.Date(2024, 2, 29, 13, 14, 15, 0, time.FixedZone("X", 3600)); return &t }),
 		rawU("struct", func() any { return dataStruct{Title: "T", Count: 3, Tags: []string{"x", "y"}, Named: "nm", inner: 1} }),
 		rawU("*struct", func() any { return &dataStruct{Title: "P", Count: 4} }),
@@ -191,6 +194,9 @@ func Universe() []UVal {
 		rawU("struct{any:slice}", func() any { return anyStruct{Name: "home", Data: []any{1, "x"}} }),
 		rawU("[]*int", func() any { a, b := 1, 2; return []*int{&a, &b, nil} }),
 		rawU("range(5..1)", func() any { return values.NewRange(5, 1) }),
+		rawU("mapslice{seqkey}", func() any {
+			return yaml.MapSlice{{Key: []any{"a", "b"}, Value: 1}, {Key: yaml.MapSlice{{Key: "k", Value: 1}}, Value: 2}, {Key: map[any]any{"k": 1}, Value: 3}}
+		}),
 		rawU("mapslice{nilkey}", func() any { return yaml.MapSlice{{Key: nil, Value: 1}, {Key: 2, Value: nil}} }),
 		rawU("[]any{struct,time}", func() any {
 			return []any{dataStruct{Title: "in"}, time.Date(2020, 1, 1, 0, 0, 0, 0, time.UTC), map[string]any{"k": []any{}}}
